@@ -4,6 +4,8 @@ import itertools
 import math
 
 PID = 'C19'
+# thread bodies (defined with engine E4, mc/checks/c10_sched.py) that exercise this property's code; explored after the parts below
+SCHED_SETS = [('sight||sight', 'call'), ('sightrow||display', 'call')]
 LEVEL = 'exploration'
 ENGINE = 'E1'
 TECHNIQUE = 'bounded exhaustive enumeration (full product focal plane x click pair x click unit x calibration x target distance x magnification x corrections) against the statement as a formula'
